@@ -5,7 +5,9 @@ from ..core import hx
 
 # the second line: keys that diverge INSIDE a UTF-8 character (same lead byte, or same lead bytes of a 3-/4-byte character)
 KEYS = ["", "a", "ab", "b", "B", "é", "a\0", "ａ", "z", "aa", "é́", "\U0001F600", "ab-c", "a b",
-        "è", "größe", "grüße", "д", "ж", "日本", "日曜", "\U0001F601", "aé", "aè"]
+        "è", "größe", "grüße", "д", "ж", "日本", "日曜", "\U0001F601", "aé", "aè",
+        # keys that differ only by a leading sigil / separator (a caller may well pass "$x"; it is a different key than "x")
+        "$", "$a", "$$a", "a$b", "-a", "a-", " a", "A"]
 SIMPLE_VALS = ["s" + hx("x"), "s-", "o" + hx("y"), "o" + hx("é"), "c" + hx("cust"), "z", "i5", "i-7", "i0",
                "u255", "s" + hx("1.0"), "i123456789012"]
 NUM_VALS = ["t" + hx("1.50"), "t" + hx("-0"), "t" + hx("007"), "t" + hx("abc"), "t" + hx("1 "), "t" + hx("0.000"),
